@@ -146,5 +146,7 @@ Definition yielded (log : list event) : list label :=
 Definition cycle_abort (l : label) (s : tstate) : option err :=
   match s with ENTERED => Some CircuitValidationError | _ => None end.
 
+Definition check_circuit_has_no_cycles_from (c : circuit) (starts : option (list label)) : res unit :=
+  do _ <- traverse DFS false c starts false cycle_abort; Ok tt.
 Definition check_circuit_has_no_cycles (c : circuit) : res unit :=
-  do _ <- traverse DFS false c None false cycle_abort; Ok tt.
+  check_circuit_has_no_cycles_from c None.
